@@ -214,9 +214,27 @@ def check_weights_and_gaussian(run, A):
     mx = [e.term for e in g.events if e.kind == 'call' and is_call_to(e.term, 'numpy.maximum') and any(is_call_to(x, 'numpy.einsum') for x in walk_terms(e.term))]
     okd = bool(mx) and any(positive_floor(x) for x in (call_arg(mx[0], 0), call_arg(mx[0], 1)))
     run.check(okd, 'R-SAN', 'Gaussian: class mass floored before dividing mean and covariance', fn.loc(), '', 'denominator = np.maximum(sum of saliency, tiny) vanished', construct=f'R-SAN::{qg}::mass-floor')
-    divs = [e for e in g.events if e.kind == 'inplace' and e.term.op == 'iop' and e.term.args[0] == 'Div']
-    okm = len(divs) >= 2 and all(any(x is mx[0] for x in walk_terms(e.term.args[2])) or any(is_call_to(x, 'numpy.array') for x in walk_terms(e.term.args[2])) for e in divs) if mx else False
+    divs = c01._division_terms(g)
+    okm = len(divs) >= 2 and all(any(x is mx[0] for x in walk_terms(dv.args[2])) or any(is_call_to(x, 'numpy.array') for x in walk_terms(dv.args[2])) for dv in divs) if mx else False
     run.check(okm, 'R-SAN', 'Gaussian: mean and covariance divided by the (floored) mass', fn.loc(), '', 'mean / covariance are not divided by the floored denominator', construct=f'R-SAN::{qg}::division')
+    # the scatter is a Gram form: both data operands of the covariance einsum are the SAME centred difference, which makes the
+    # result symmetric positive semi-definite by construction (centring one factor only is algebraically equal but leaves an
+    # asymmetric rounding residue ~ eps * |mean|^2 that the Cholesky guard, reading one triangle, does not see)
+    n_gram = 0
+    for e in g.events:
+        if e.kind != 'call' or not is_call_to(e.term, 'numpy.einsum'):
+            continue
+        ops = [strip_views(x) for x in call_parts(e.term)[1][1:]]
+        data_ops = [x for x in ops if not (data_derives(x, 'saliency') and not data_derives(x, 'y'))]
+        if len(data_ops) != 2:
+            continue
+        n_gram += 1
+        a, b = data_ops
+        centred = a.op in ('binop', 'iop') and a.args[0] == 'Sub' and data_derives(a.args[1], 'y')
+        run.check(a is b and centred, 'R-SAN', 'Gaussian: covariance is the Gram form of one centred difference', fn.loc(e.term.node), '',
+                  'the two data operands of the scatter einsum are not the same centred difference (y - mean): the estimate is no longer symmetric / positive semi-definite by construction',
+                  construct=f'R-SAN::{qg}::gram-form')
+    run.floor('Gaussian scatter einsums', n_gram, 2)
     for cname in ('Gaussian', 'DiagonalGaussian', 'SphericalGaussian'):
         qp = f'{D}gaussian::{cname}.__post_init__'
         gp = A.graphs.get(A.prog.func(qp))
